@@ -50,6 +50,10 @@ def cases(draw, tier="quick"):
     kind = draw(st.sampled_from(["reduce", "reduce", "reduce", "scan", "xarray"]))
     if kind == "reduce":
         inner = draw(c02.reduce_cases(tier, nplans=1, max_n=14))
+        # degenerate but legal: no requested label occurs in the data
+        if draw(st.integers(0, 7)) == 0 and inner["by"]["dt"] != "U":
+            inner["expected"] = {"labels": [1000, 1001], "as": "array"}
+            inner["fill_value"] = 0
         # push towards dask labels / unknown groups
         if draw(st.booleans()):
             inner["plans"][0]["by_dask"] = True
